@@ -941,6 +941,11 @@ func ruleRangeWrappersLive(c *Ctx, r *R) {
 						bad = calleeName(&x.Call)
 						return false
 					case *ssa.Alloc:
+						// &keyIterator[T]{pairs: <live>} with a hand-written Next that pulls once from that field per call: a
+						// view of the live iterator, like iterator.Map
+						if inner, nx := iterViewOf(c, x); inner != nil && nx != nil {
+							return live(inner, d+1)
+						}
 						// fwd := &forwardIterator{c: t.Cursor()} positioned in place: an object of the very type cursor.Forward /
 						// Backward build
 						for _, ctor := range []string{"Forward", "Backward"} {
@@ -1861,4 +1866,76 @@ func rulePrefillFull(c *Ctx, r *R) {
 	if n == 0 {
 		r.undecided("parallel.MapStream|prefill", fn.Pos(), "no pre-fill of a token channel found in MapStream (or a helper it calls)")
 	}
+}
+
+// iterViewOf: al is a freshly allocated struct of the package whose one stored field is an iterator (interface with Next) and
+// whose own Next method pulls from that field exactly once per call, with no loop: the wrapped iterator and that Next.
+func iterViewOf(c *Ctx, al *ssa.Alloc) (ssa.Value, *ssa.Function) {
+	nt, ok := derefType(al.Type()).(*types.Named)
+	if !ok || !al.Heap {
+		return nil, nil
+	}
+	var inner ssa.Value
+	field := -1
+	n := 0
+	for _, ref := range refsOf(al) {
+		fa, isFA := ref.(*ssa.FieldAddr)
+		if !isFA {
+			continue
+		}
+		for _, r2 := range refsOf(fa) {
+			if st, isSt := r2.(*ssa.Store); isSt && st.Addr == ssa.Value(fa) {
+				n++
+				inner, field = st.Val, fa.Field
+			}
+		}
+	}
+	if n != 1 || inner == nil {
+		return nil, nil
+	}
+	if _, isIface := inner.Type().Underlying().(*types.Interface); !isIface {
+		return nil, nil
+	}
+	var next *ssa.Function
+	for _, f := range c.Funcs {
+		if f.Parent() != nil || f.Name() != "Next" || f.Signature.Recv() == nil {
+			continue
+		}
+		if rt, ok := derefType(f.Signature.Recv().Type()).(*types.Named); ok && rt.Origin() == nt.Origin() {
+			next = f
+		}
+	}
+	if next == nil || len(next.Params) == 0 {
+		return nil, nil
+	}
+	pulls := 0
+	okShape := true
+	instrs(next, func(b *ssa.BasicBlock, _ int, in ssa.Instruction) {
+		if reaches(b, b) {
+			okShape = false
+		}
+		call, isCall := in.(*ssa.Call)
+		if !isCall {
+			return
+		}
+		if !call.Call.IsInvoke() || call.Call.Method.Name() != "Next" {
+			okShape = false
+			return
+		}
+		ld, isLd := call.Call.Value.(*ssa.UnOp)
+		if !isLd || ld.Op != token.MUL {
+			okShape = false
+			return
+		}
+		fa, isFA := ld.X.(*ssa.FieldAddr)
+		if !isFA || fa.X != ssa.Value(next.Params[0]) || fa.Field != field {
+			okShape = false
+			return
+		}
+		pulls++
+	})
+	if !okShape || pulls != 1 {
+		return nil, nil
+	}
+	return inner, next
 }
